@@ -576,6 +576,15 @@ pub fn process<I: BufRead, O: Write>(
                             rex = rex.strip_suffix(',').unwrap().to_string();
                         }
                         rex += "\\)";
+                        // An empty or repeated parameter name does not make a valid pattern
+                        if Regex::new(&rex).is_err() {
+                            return Err(Error::Syntax {
+                                filename: filename.clone(),
+                                included_in: included_in.clone(),
+                                line,
+                                msg: format!("Invalid parameter list for macro {}", mcro),
+                            });
+                        }
                         value = value.replace("##", ""); // Double hash
                         debug!("regex:{}", &rex);
                         context.define_ex(mcro, (rex, value));
